@@ -106,6 +106,14 @@ def tag_loop(ctx, rule):
                             h = repo.resolve_call(pf, t)
                             if h is not None and h.module is not pf.module and any(isinstance(x, ast.Subscript) and isinstance(x.value, ast.Name) and isinstance(h.module.consts.get(x.value.id), ast.Dict) for x in ast.walk(h.node)) and norm(n.target) in {norm(a) for a in t.args}:
                                 ctx.violated("R16.1", pf.where(t), f"optional fields are kept only if `{h.qualname}` accepts them: that is the strict per-type value grammar (types_regex), so a printable value such as `de:f:nan` or a lower-case hex array is dropped instead of being carried through", key_of(pf, f"strict-validator:{h.qualname}"))
+            # ... or cut by hand: a field split on ':' without a bound loses (or rejects) every value that contains ':'
+            for n in pf.node.body:
+                if isinstance(n, ast.For):
+                    for c in ast.walk(n):
+                        if isinstance(c, ast.Call) and isinstance(c.func, ast.Attribute) and c.func.attr in ("split", "rsplit") and c.args and const_value(c.args[0]) == ":" and norm(c.func.value) == norm(n.target):
+                            bound = const_value(c.args[1], None) if len(c.args) > 1 else next((const_value(k.value) for k in c.keywords if k.arg == "maxsplit"), None)
+                            if not (c.func.attr == "split" and bound == 2):
+                                ctx.violated("R16.1", pf.where(c), f"an optional field is cut with `{norm(c)}`: ':' belongs to the value language (Z values such as times, regions, URLs), so a field whose value contains ':' is mis-split and dropped", key_of(pf, f"tag-split-unbounded:{norm(c)}"))
         raise AnalysisError(rule, pf.where(), f"expected one loop over the optional fields using a regular expression, found {len(cands)}")
     f, loop = cands[0]
     f._repo_modules = repo.modules
